@@ -343,6 +343,8 @@ def _cross_coordinate(f):
 class DtypePolicy(BasePolicy):
     """INH = dtype inherited from a caller-supplied array; FLT = float."""
 
+    inplace_store_keeps_tags = True
+
     def __init__(self, params, attr_tags=None):
         self.params = params
         self.attr_tags = attr_tags or {}
@@ -363,6 +365,16 @@ class DtypePolicy(BasePolicy):
                 return frozenset({"FLT"}) if dt in ("float", "np.float64", "'float'", "'float64'", "np.float_", "np.double") else EMPTY
             if n in ("np.ones", "np.zeros", "np.full", "np.empty", "np.log", "np.exp", "np.sqrt", "np.random.uniform"):
                 return frozenset({"FLT"})
+            if n in ("np.maximum", "np.minimum", "np.clip", "np.where", "np.abs", "np.round", "np.fmax", "np.fmin") and expr.args:
+                ts = [self.eval(a_, state, flow) for a_ in expr.args]
+                if any("FLT" in t_ for t_ in ts):
+                    return frozenset({"FLT"})
+                acc = None
+                for t_ in ts:
+                    acc = t_ if acc is None else acc & t_
+                return acc or EMPTY
+        if isinstance(expr, ast.Constant) and isinstance(expr.value, float):
+            return frozenset({"FLT"})
         if isinstance(expr, ast.BinOp):
             a, b = self.eval(expr.left, state, flow), self.eval(expr.right, state, flow)
             if isinstance(expr.op, ast.Div) or "FLT" in a or "FLT" in b:
@@ -399,7 +411,7 @@ def _float_valued(v: ast.AST) -> bool:
     return False
 
 
-def _dtype_rule(ctx, prog, R):
+def _dtype_rule(ctx, prog, R, include_validator=True):
     T = R.transformer
     init = T.find_method("__init__")
     params = [p for p in init.params if p not in ("self", "D")]
@@ -434,19 +446,28 @@ def _dtype_rule(ctx, prog, R):
                 ctx.ok(m, s, f"{canon(base)} is float before the in-place store")
             else:
                 ctx.fail(m, s, "the dtype of the target of a float-valued in-place store cannot be established as float", construct=f"{canon(base)}[..] = {canon(v)[:60]} (dtype unknown)")
-    # the validator itself
+    if not include_validator:
+        return
+    # the validator itself: any float-typed value written in place into a caller-typed array
     val = R.bounds_check
     vp = [p for p in val.params if p != "self"]
     fv = TagFlow(prog, val, DtypePolicy(vp))
     for t, v, s, k in iter_stores(val.node):
-        if not isinstance(t, ast.Subscript) or v is None or not _float_valued(v):
+        if not isinstance(t, ast.Subscript) or v is None:
             continue
+        c = const_num(v)
+        if c is not None and float(c) == int(c):
+            continue  # an integral literal is representable in any numeric dtype
         base = store_base(t)
         st = fv.state_before(s)
         if st is None:
             continue
         tg = fv.policy.eval(base, st, fv)
+        vt = fv.policy.eval(v, st, fv)
+        if not (_float_valued(v) or "FLT" in vt):
+            continue
         if "INH" in tg and "FLT" not in tg:
-            ctx.fail(val, s, "a float-valued expression is stored in place into a caller-typed array in the validator", construct=f"{canon(base)}[..] = {canon(v)[:60]} (dtype inherited)")
+            ctx.fail(val, s, "a float-valued expression is stored in place into an array that keeps the caller's dtype: integer spellings of the same vector are truncated and define a different problem",
+                     construct=f"{canon(base)}[..] = {canon(v)[:60]} (dtype inherited)")
         else:
             ctx.ok(val, s, f"{canon(base)} in-place float store is safe")
